@@ -1,5 +1,53 @@
-import ErdosVerif.Model.TaskGraph
+import ErdosVerif.Lemmas.Conditional
+import ErdosVerif.Lemmas.Frontier
+/-!
+# C07 — conditional branches: exactly one branch runs, the others are cancelled
+Model: `Model/TaskGraph.lean` (`notify_task_completion`, `cancel`).
+The index returned by `random.choices` is an input (tape); that `random.choices`
+never returns a zero-weight element is part of the trusted base.
+-/
 namespace ErdosVerif.C07
 open ErdosVerif.Model
-theorem placeholder : TState.virtual.val = 1 := rfl
+
+/-- **Exactly one child is released; every other child is cancelled; the cancelled
+set is closed downstream up to (excluding) joins that still have a live parent.** -/
+theorem conditional_completion (g : GraphS) (n : Nat) (finish : Int) (tape tape' : List Draw) (t : TaskS)
+    (i chosen : Nat) (hwf : g.EdgesWF) (ht : g.task? n = some t) (hc : t.isComplete = true)
+    (hcond : t.conditional = true)
+    (hp : ((g.kids n).map (fun c => ((g.task? c).map (·.prob)).getD 0)).all (· ≤ 0) = false)
+    (hsum : ((g.kids n).map (fun c => ((g.task? c).map (·.prob)).getD 0)).foldl (· + ·) 0 = 1000)
+    (htape : tape = .choices i :: tape') (hch : (g.kids n)[i]? = some chosen)
+    (herr : (g.notifyCompletion n finish tape).err = none) :
+    (g.notifyCompletion n finish tape).released = [chosen] ∧
+    (g.notifyCompletion n finish tape).tape = tape' ∧
+    (∀ c ∈ g.kids n, c ≠ chosen → (g.notifyCompletion n finish tape).g.stateOf c = .cancelled) ∧
+    GraphS.DownClosed g (g.notifyCompletion n finish tape).g (g.notifyCompletion n finish tape).cancelled :=
+  GraphS.conditional_completion g n finish tape tape' t i chosen hwf ht hc hcond hp hsum htape hch herr
+
+/-- The join of a conditional is released by its first completed parent (and only
+non-cancelled children are released): the release rule for non-conditional tasks. -/
+theorem join_released_by_first_parent (g : GraphS) (n : Nat) (finish : Int) (tape : List Draw) (t : TaskS)
+    (ht : g.task? n = some t) (hc : t.isComplete = true) (hnc : t.conditional = false)
+    (herr : (g.notifyCompletion n finish tape).err = none) :
+    (g.notifyCompletion n finish tape).released = (g.kids n).filter g.releasedBy :=
+  (GraphS.notify_nonconditional g n finish tape t ht hc hnc herr).1
+
+/-- A cancelled task can never start (so nothing on an untaken branch runs). -/
+theorem untaken_never_starts (t : TaskS) (time fuzzed : Int) (h : t.state = .cancelled) :
+    (t.doStart time fuzzed).2 = some .valueError := by
+  simp [TaskS.doStart, h]
+
+/-! ### non-vacuity: the fork-in-branch graph, branch B2 taken -/
+example :
+    let mk (nm : String) (cond term : Bool) (p : Int) (st : TState) : TaskS :=
+      { name := nm, conditional := cond, terminal := term, prob := p, strategies := [], profile := 0,
+        deadline := 10, state := st, remaining := some 0 }
+    let g : GraphS := ⟨"G", #[mk "C" true false 1000 .completed, mk "B1" false false 500 .virtual,
+        mk "B2" false false 500 .virtual, mk "X" false false 1000 .virtual, mk "Y" false false 1000 .virtual,
+        mk "J" false true 1000 .virtual],
+      #[[1, 2], [3, 4], [5], [5], [5], []], #[[], [0], [0], [1], [1], [2, 3, 4]], [0, 1, 2, 3, 4, 5]⟩
+    let r := g.notifyCompletion 0 5 [.choices 1]
+    r.err = none ∧ r.released = [2] ∧ r.cancelled = [1, 4, 3] ∧ r.g.stateOf 5 = .virtual := by
+  decide
+
 end ErdosVerif.C07
